@@ -592,9 +592,9 @@ impl<'a> TupleReader<'a> {
     ) -> TupleResult<Option<TupleLayout>> {
         let mut layout = self.parse_last_version(data)?;
 
-        // Check if tuple was deleted before our snapshot
+        // Check if tuple was deleted before our snapshot, or by the snapshot's own transaction
         if let Some(xmax) = layout.version_xmax {
-            if snapshot.is_committed_before_snapshot(xmax) {
+            if xmax == snapshot.xid() || snapshot.is_committed_before_snapshot(xmax) {
                 return Ok(None);
             }
         }
